@@ -1,5 +1,6 @@
 import PvProofs.C19
 import PvProofs.C19Gen
+import PvProofs.C19Dist
 #print axioms PvProofs.C19.quoIntRoundUp_away_from_zero
 #print axioms PvProofs.C19.quoIntRoundUp_is_ceil
 #print axioms PvProofs.C19.applyLoosely_is_ceil
@@ -28,3 +29,8 @@ import PvProofs.C19Gen
 #print axioms PvProofs.C19Gen.code_ApplyTo_exact
 #print axioms PvProofs.C19Gen.code_SplitCoinByBips_floor_and_adds_up
 #print axioms PvProofs.C19Gen.code_SplitCoinByBips_rejects
+#print axioms PvProofs.C19Dist.increase_fails_iff
+#print axioms PvProofs.C19Dist.increase_step
+#print axioms PvProofs.C19Dist.increaseAll_adds_up
+#print axioms PvProofs.C19Dist.distribution_adds_up
+#print axioms PvProofs.C19Dist.increaseAll_never_fails
